@@ -56,7 +56,7 @@ def op_sym(model):
 
 
 def slot(name, reserved=False, sid=None):
-    return Sym(f"slot:{name}", attrs={"isReservedSlot": reserved, "id": sid if sid is not None else 1000 + hash(name) % 1000})
+    return Sym(f"slot:{name}", attrs={"isReservedSlot": reserved, "id": sid if sid is not None else 1000 + sum((i + 1) * ord(ch) for i, ch in enumerate(name)) % 1000})
 
 
 def make_oracle(OpS, B, extra=None):
